@@ -275,17 +275,38 @@ def check_pins(v_rel, pins_rel, workdir):
 
 
 # ---------------------------------------------------------------- builds
-def cargo_build(bins, release=True, extra_env=None, timeout=3000):
-    """build harness bins against /repo's working tree with hooks on"""
+def _harness_dir():
+    """the harness crate to build: /verif/harness itself when checking /repo; for another
+    repository root (BLUE_REPO=<scratch worktree>, used to test seeded changes without touching
+    /repo) a generated twin whose path dependencies point there, with its own target dir"""
     h = os.path.join(VERIF, "harness")
+    if os.path.normpath(REPO) == "/repo":
+        return h, TARGET
+    tag = hashlib.sha1(os.path.normpath(REPO).encode()).hexdigest()[:10]
+    alt = os.path.join(WORK, "harness_alt", tag)
+    os.makedirs(alt, exist_ok=True)
+    toml = open(os.path.join(h, "Cargo.toml")).read().replace('"/repo/', '"%s/' % os.path.normpath(REPO))
+    p = os.path.join(alt, "Cargo.toml")
+    if not os.path.exists(p) or open(p).read() != toml:
+        with open(p, "w") as fh:
+            fh.write(toml)
+    for name in ("src", ".cargo"):
+        link = os.path.join(alt, name)
+        if not os.path.islink(link):
+            os.symlink(os.path.join(h, name), link)
+    return alt, os.path.join(WORK, "target_alt", tag)
+
+
+def cargo_build(bins, release=True, extra_env=None, timeout=3000):
+    """build harness bins against the repository's working tree (REPO) with hooks on"""
+    h, target = _harness_dir()
     lock = os.path.join(h, "Cargo.lock")
     src_lock = os.path.join(REPO, "Cargo.lock")
-    if not os.path.exists(lock) or open(lock).read() != open(src_lock).read():
+    if not os.path.exists(lock):
         # start from the repository's lock so that nothing needs resolving online
-        if not os.path.exists(lock):
-            with open(lock, "w") as fh:
-                fh.write(open(src_lock).read())
-    env = {"RUSTFLAGS": "--cfg blue_verif -A unexpected_cfgs -A warnings", "CARGO_TARGET_DIR": TARGET,
+        with open(lock, "w") as fh:
+            fh.write(open(src_lock).read())
+    env = {"RUSTFLAGS": "--cfg blue_verif -A unexpected_cfgs -A warnings", "CARGO_TARGET_DIR": target,
            "CARGO_NET_OFFLINE": "true"}
     if extra_env:
         env.update(extra_env)
@@ -293,7 +314,7 @@ def cargo_build(bins, release=True, extra_env=None, timeout=3000):
     for b in bins:
         cmd += ["--bin", b]
     rc, out = sh(cmd, cwd=h, env=env, timeout=timeout)
-    paths = [os.path.join(TARGET, "release" if release else "debug", b) for b in bins]
+    paths = [os.path.join(target, "release" if release else "debug", b) for b in bins]
     return rc == 0, out, paths
 
 
